@@ -25,7 +25,7 @@ LINKS = ('C04', 'C10', 'C12', 'C13', 'C18')
 # Passive protocol monitor: the forward-model evaluations a driver performs anyway are recorded (wrappers around the
 # public methods, harness/pipeline.py) and validated against spec/Pipeline.tla -- every guard at every step of every
 # real run, as X01 does for its own scenarios.
-MONITOR = ('C02', 'C03', 'C07', 'C13', 'C16', 'C19')
+MONITOR = ('C02', 'C03', 'C07', 'C11', 'C13', 'C15', 'C16', 'C19')
 
 
 def monitor_begin(pid):
